@@ -357,19 +357,57 @@ Definition out_eqb (a b : out) : bool :=
   | _, _ => false
   end.
 
-Inductive cop := CPrim (o : op) | CAddN (n : N) (a : addargs).
+Inductive cop := CPrim (o : op) | CAddN (n : N) (a : addargs)
+  | CBlockEnd                (* the operations since the last block end form one block; its undo records are written *)
+  | CRollback (k : N).       (* HeaderChain.SetCurrentHeader to the k-th ancestor of the head *)
 
 Definition addn (n : N) (a : addargs) (L : ledger) : ledger * N :=
   N.iter n (fun st => let '(l, oks) := st in
                       match add_core l a with Some (l', _, _) => (l', oks + 1) | None => (l, oks) end) (L, 0).
 
-Fixpoint run_case (L : ledger) (h : list (cop * out)) : bool :=
+(* the per-block undo records of the lockups as StateProcessor.Process assembles them
+   (CoinbaseLockupsCreatedKeys / CoinbaseLockupsDeleted): per reward, "deleted" (key, old record) if
+   AddNewLock replaced a record, else "created" key; per successful claiming transaction the records
+   in evm.CoinbasesDeleted (empty after a failed transaction and after a reverted frame) *)
+Inductive leff := ECreated (k : key) | EDeleted (k : key) (r : lkrec).
+Definition effects_of (L : ledger) (o : op) : list leff :=
+  match o with
+  | OAdd a =>
+      match add_core L a with
+      | Some (_, true, Some old) => [EDeleted (add_key a) old]
+      | Some (_, _, _) => [ECreated (add_key a)]
+      | None => []
+      end
+  | OClaim m c =>
+      match m with
+      | TxOk | EvmOk =>
+          if claim_goes c m then match claim_check L c with Some r => [EDeleted (claim_key c) r] | None => [] end else []
+      | _ => []
+      end
+  | _ => []
+  end.
+(* HeaderChain.SetCurrentHeader, rollback of one block: the deleted records are put back in reverse
+   order, THEN the keys the block created are deleted *)
+Definition undo_block (es : list leff) (L : ledger) : ledger :=
+  let L1 := fold_left (fun l e => match e with EDeleted k r => put k r l | _ => l end) (rev es) L in
+  fold_left (fun l e => match e with ECreated k => del k l | _ => l end) es L1.
+Fixpoint undo_n (k : nat) (L : ledger) (st : list (list leff)) : ledger * list (list leff) :=
+  match k, st with
+  | S k', es :: st' => undo_n k' (undo_block es L) st'
+  | _, _ => (L, st)
+  end.
+
+Fixpoint run_case_r (L : ledger) (cur : list leff) (st : list (list leff)) (h : list (cop * out)) : bool :=
   match h with
   | [] => true
-  | (CPrim o, r) :: t => let '(L', r') := step L o in out_eqb r r' && run_case L' t
+  | (CPrim o, r) :: t => let '(L', r') := step L o in out_eqb r r' && run_case_r L' (cur ++ effects_of L o) st t
   | (CAddN n a, r) :: t =>
-      let '(L', oks) := addn n a L in out_eqb r (RAddN oks (read L' (add_key a))) && run_case L' t
+      let '(L', oks) := addn n a L in out_eqb r (RAddN oks (read L' (add_key a))) && run_case_r L' cur st t
+  | (CBlockEnd, r) :: t => out_eqb r RNone && run_case_r L [] (cur :: st) t
+  | (CRollback k, r) :: t =>
+      let '(L', st') := undo_n (N.to_nat k) L st in out_eqb r RNone && run_case_r L' [] st' t
   end.
+Definition run_case (L : ledger) (h : list (cop * out)) : bool := run_case_r L [] [] h.
 
 Fixpoint credits_eqb (a b : list (addr * Z)) : bool :=
   match a, b with
@@ -388,13 +426,179 @@ Fixpoint bals_eqb (st : accts) (obs : list (addr * option Z)) : bool :=
        end) && bals_eqb st t
   end.
 
+(* ---------------------------------------------------------------- workshare inclusion
+   core/headerchain_validation.go HeaderChain.VerifyUncles (zone node, shares without AuxPoW) with
+   core/headerchain.go WorkShareDistance, and the reward-at-depth rule of the Process tail
+   (core/state_processor.go: a block pays the shares numbered block-depth found in its own uncle
+   list and in those of its last `depth` ancestors).
+   Blocks and shares are WorkObjectHeaders, so their hashes live in ONE space `hid`.
+   The class of the proof of work of a share (hc.VerifySeal / hc.UncleWorkShareClassification: C08's
+   subject) and "difficulty = CalcDifficulty(parent)" are observed inputs. *)
+Definition hid := N.
+Inductive powc := PBlock | PValid | PSub | PInvalid.
+
+Record share := mkShare {
+  s_id : hid;          (* uncle.Hash() *)
+  s_parent : hid;      (* uncle.ParentHash() *)
+  s_num : N;           (* uncle.NumberU64() *)
+  s_ptn : N;           (* uncle.PrimeTerminusNumber() *)
+  s_qi : bool;         (* uncle.PrimaryCoinbase().IsInQiLedgerScope() *)
+  s_data : list N;     (* uncle.Data(); uncle.Location() = (0,0) *)
+  s_lock : N;          (* uncle.Lock() *)
+  s_seal : bool;       (* hc.VerifySeal(uncle) == nil *)
+  s_cls : powc;        (* hc.UncleWorkShareClassification(uncle) *)
+  s_diff_ok : bool     (* uncle.Difficulty() == hc.CalcDifficulty(parent) *)
+}.
+Record blk := mkBlk {
+  b_id : hid; b_parent : hid; b_num : N; b_ptn : N; b_uncles : list share
+}.
+
+(* verdict classes: only the sentinel errors of package consensus are told apart, every other
+   error is VOther *)
+Inductive uverdict := VOk | VTooMany | VDup | VAncestor | VDangling | VNumber | VOther.
+Definition uverdict_code (v : uverdict) : N :=
+  match v with VOk => 0 | VTooMany => 1 | VDup => 2 | VAncestor => 3 | VDangling => 4 | VNumber => 5 | VOther => 6 end.
+
+(* fork-dependent parameters, all selected by the INCLUDING block's prime terminus number *)
+Definition u_depth (ptn : N) : nat :=
+  N.to_nat (if inclusion_depth_change_block <=? ptn then new_workshares_inclusion_depth else workshares_inclusion_depth).
+Definition u_maxcount (ptn : N) : N :=
+  if singularity_fork_block <=? ptn then new_max_workshare_count else max_workshare_count.
+Definition u_postkaw (ptn : N) : bool := kawpow_fork_block <=? ptn.
+
+Definition hmem (h : hid) (l : list hid) : bool := existsb (N.eqb h) l.
+Fixpoint find_blk (db : list blk) (h : hid) : option blk :=
+  match db with
+  | [] => None
+  | b :: t => if b_id b =? h then Some b else find_blk t h
+  end.
+Definition uids (b : blk) : list hid := map s_id (b_uncles b).
+
+(* the ancestor walk: `fuel` = inclusion depth; a missing header/body ends the walk *)
+Fixpoint uwalk (db : list blk) (fuel : nat) (p : hid) (anc : list blk) (ban : list hid) : list blk * list hid :=
+  match fuel with
+  | O => (anc, ban)
+  | S f =>
+      match find_blk db p with
+      | None => (anc, ban)
+      | Some a => uwalk db f (b_parent a) (anc ++ [a]) (ban ++ uids a)
+      end
+  end.
+
+(* the data field of the share header: lock byte [+ lockup contract [+ beneficiary]] *)
+Definition udata_bad (d : list N) : bool :=
+  match d with
+  | [] => true
+  | lb :: rest =>
+      (max_lockup_byte <? lb)
+      || ((address_length + 1 <=? N.of_nat (length d))
+          && let c := firstn 20 rest in negb (internal c && is_quai c))
+      || ((N.of_nat (length d) =? 2 * address_length + 1)
+          && negb (internal (firstn 20 (skipn 20 rest))))
+  end.
+
+(* CheckPowIdValidity / CheckPowIdValidityForWorkshare for a header without AuxPoW *)
+Definition upowid_bad (s : share) : bool := kawpow_fork_block + kawpow_transition_period <? s_ptn s.
+
+(* one uncle of `b`, after the duplicate test; anc = the ancestors found by the walk, nearest first *)
+Definition ucheck (b : blk) (anc : list blk) (s : share) : uverdict :=
+  let family := map b_id anc ++ [b_id b] in
+  if s_qi s && (b_ptn b <? controller_kick_in_block) then VOther else
+  if udata_bad (s_data s) then VOther else
+  if hmem (s_id s) family then VAncestor else
+  match (if u_postkaw (b_ptn b)
+         then match s_cls s with PBlock => Some false | PValid => Some true | _ => None end
+         else Some (negb (s_seal s))) with
+  | None => VOther
+  | Some workshare =>
+      if upowid_bad s then VOther else
+      if negb (hmem (s_parent s) family) || (negb workshare && (s_parent s =? b_parent b)) then VDangling else
+      (* WorkShareDistance: all `depth` ancestors must exist; a parent inside the family is near enough *)
+      if negb (length anc =? u_depth (b_ptn b))%nat then VOther else
+      if (s_num s <? 2 * blocks_per_month) && negb (s_lock s =? 0) then VOther else
+      (* zone section: difficulty, prime terminus number (after the KawPow fork), number *)
+      match find_blk anc (s_parent s) with
+      | None => VOther          (* parent = the including block itself: not stored yet *)
+      | Some p =>
+          if negb (s_diff_ok s) then VOther else
+          if u_postkaw (b_ptn b) && negb (s_ptn s =? b_ptn p) then VOther else
+          if negb (s_num s =? b_num p + 1) then VNumber else VOk
+      end
+  end.
+
+Fixpoint uloop (b : blk) (anc : list blk) (ban : list hid) (us : list share) : uverdict :=
+  match us with
+  | [] => VOk
+  | s :: t =>
+      if hmem (s_id s) ban then VDup else
+      match ucheck b anc s with
+      | VOk => uloop b anc (s_id s :: ban) t
+      | v => v
+      end
+  end.
+
+Definition verify_uncles (db : list blk) (b : blk) : uverdict :=
+  if u_maxcount (b_ptn b) <? N.of_nat (length (b_uncles b)) then VTooMany else
+  match b_uncles b with
+  | [] => VOk
+  | _ =>
+      let '(anc, ban) := uwalk db (u_depth (b_ptn b)) (b_parent b) [] [] in
+      uloop b anc (ban ++ [b_id b]) (b_uncles b)
+  end.
+
+(* Process tail: the shares a block pays (one coinbase ETX each): those numbered block-depth in
+   the uncle lists of the last `depth` ancestors (nearest first) and of the block itself.
+   `rest` = the chain below the block, nearest first. *)
+Definition upaid (b : blk) (rest : list blk) : list share :=
+  let d := u_depth (b_ptn b) in
+  if b_num b <=? workshares_inclusion_depth then [] else
+  if (length rest <? d)%nat then [] else
+  filter (fun s => s_num s =? b_num b - N.of_nat d) (flat_map b_uncles (firstn d rest) ++ b_uncles b).
+
+(* chains are written NEWEST FIRST; the database a block is validated against is the chain below it *)
+Fixpoint uwf (c : list blk) : Prop :=          (* distinct block hashes, parent links *)
+  match c with
+  | [] => True
+  | b :: rest =>
+      ~ In (b_id b) (map b_id rest)
+      /\ match rest with [] => True | p :: _ => b_parent b = b_id p end
+      /\ uwf rest
+  end.
+(* the parent of the oldest block is not a block of the chain (hash chains have no cycles) *)
+Definition uroot (c : list blk) : Prop := ~ In (b_parent (last c (mkBlk 0 0 0 0 []))) (map b_id c).
+Fixpoint uaccepted (c : list blk) : Prop :=
+  match c with [] => True | b :: rest => verify_uncles rest b = VOk /\ uaccepted rest end.
+Fixpoint unumbered (c : list blk) : Prop :=
+  match c with
+  | [] => True
+  | b :: rest => match rest with [] => True | p :: _ => b_num b = b_num p + 1 end /\ unumbered rest
+  end.
+Definition ushares (c : list blk) : list share := flat_map b_uncles c.
+(* a hash determines the header it was computed from, in particular its parent hash; the negation is
+   a collision of the header hash *)
+Definition ubinds (c : list blk) : Prop :=
+  forall s s', In s (ushares c) -> In s' (ushares c) -> s_id s = s_id s' -> s_parent s = s_parent s'.
+Definition ubinds_blocks (c : list blk) : Prop :=
+  forall s b, In s (ushares c) -> In b c -> s_id s = b_id b -> s_parent s = b_parent b.
+Fixpoint upaid_all (c : list blk) : list share :=
+  match c with [] => [] | b :: rest => upaid b rest ++ upaid_all rest end.
+
+(* a run of the harness: blocks are validated in turn against the blocks stored so far *)
+Fixpoint urun (db : list blk) (steps : list (blk * N * bool)) : bool :=
+  match steps with
+  | [] => true
+  | (b, obs, store) :: t =>
+      (uverdict_code (verify_uncles db b) =? obs) && urun (if store then b :: db else db) t
+  end.
+
 (* observed result of RedeemLockedQuai: class (0 ok, 1 error, 2 panic), unlock list,
    existence/balance of every address mentioned afterwards *)
 Inductive cbody :=
 | CLedger (h : list (cop * out))
 | CValue (v : Z) (lb h : N) (observed : Z)
 | CRedeem (ch : chain) (h : N) (fee : Z) (pre : list (addr * Z))
-          (cls : N) (credits : list (addr * Z)) (post : list (addr * option Z)).
+          (cls : N) (credits : list (addr * Z)) (post : list (addr * option Z))
+| CUncles (steps : list (blk * N * bool)).
 
 Definition case := (N * cbody)%type.
 
@@ -410,6 +614,7 @@ Definition case_ok (c : case) : bool :=
       | RedErr => cls =? 1
       | RedPanic => cls =? 2
       end
+  | CUncles steps => urun [] steps
   end.
 
 Definition mismatches (cs : list case) : list N :=
